@@ -136,8 +136,8 @@ def verdicts(hist, with_origin=True):
         sr = hist.sr(sid)
         out[sid] = (sr.over[2] if sr.over else None,
                     sr.value if sr.over and sr.over[2] == 'ret' else
-                    (type(sr.value).__name__,
-                     getattr(sr.value, 'nid', None) if with_origin else None)
+                    ((type(sr.value).__name__, getattr(sr.value, 'nid', None))
+                     if with_origin else 'some-exception')
                     if sr.over else None,
                     bool(sr.fto), bool(sr.fc), sr.why)
     return out
